@@ -207,7 +207,10 @@ func runUnit(w *World, pk *Pkg, c *Contract) (res *UnitResult) {
 		}
 		e.bindResults(fr, decl, pk, st)
 	} else {
-		// clause unit: the receiver of the enclosing method is non-nil; everything else is lazily havocked
+		// clause unit: the receiver of the enclosing method is non-nil; everything else is lazily havocked.
+		// A `return` inside the clause sets the function's results (`result`, `result1`, ... in postconditions; a
+		// path that leaves the clause without returning leaves them at their zero values).
+		e.bindResults(fr, decl, pk, st)
 		if decl.Recv != nil {
 			for _, f := range decl.Recv.List {
 				for _, id := range f.Names {
